@@ -54,6 +54,35 @@ NameSchema(doc, key, name, marker, sch) ==
 NameOne(doc, key, name, marker) == IF ~Has(doc, key) THEN doc ELSE NameSchema(doc, key, name, marker, At(doc, key))
 MarkerFor(key) == IF key # <<>> /\ key[1] = "paths" THEN "operations" ELSE IF key # <<>> /\ key[1] = "definitions" THEN "models" ELSE ""
 
+\* ---- step 6: anonymous pointers (namePointers / flattenAnonPointer) and OAIGen de-duplication (stripOAIGenForRef),
+\* one operation per hook event, arguments as logged ---------------------------------------------------------------
+IsTopLevelRef(r) == Len(r) = 3 /\ r[1] = "root" /\ r[2] = "definitions"
+\* replace.DeepestRef: follow a chain of pointers down to the first top-level definition, or to the last pointer
+RECURSIVE Deepest(_, _, _)
+Deepest(doc, r, fuel) ==
+  IF IsTopLevelRef(r) \/ fuel = 0 \/ r[1] # "root" \/ ~Has(doc, Tail(r)) THEN r
+  ELSE LET n == At(doc, Tail(r)) IN IF HasRef(n) THEN Deepest(doc, RefOf(n), fuel - 1) ELSE r
+SetRefAt(doc, key, r) == IF ~Has(doc, key) THEN doc ELSE SetAt(doc, key, [At(doc, key) EXCEPT !.at = ("$ref" :> r) @@ @])
+\* InlineSchemaNamer.Name also re-targets every anonymous pointer whose chain now ends on the new definition
+Dependants(doc, name) ==
+  { x[1] : x \in { y \in RefsIn(doc) : ~IsTopLevelRef(y[2]) /\ y[2][1] = "root" /\ Deepest(doc, y[2], 16) = <<"root", "definitions", name>> } }
+NameWithDependants(doc, key, name, marker, sch) ==
+  LET d1 == NameSchema(doc, key, name, marker, sch) IN Retarget(d1, Dependants(d1, name), name)
+\* a pointer whose chain ends on a top-level definition is replaced by that $ref
+PointerTop(doc, key, r) == SetRefAt(doc, key, r)
+\* a pointer to a simple schema with a single caller is expanded in place (the schema at the target, not expanded further)
+PointerExpanded(doc, key, r) ==
+  IF ~Has(doc, key) \/ r[1] # "root" \/ ~Has(doc, Tail(r)) THEN doc ELSE SetAt(doc, key, At(doc, Tail(r)))
+\* stripOAIGenForRef: the definition at defPath is re-inlined into the first parent, the other parents point to the first, the definition goes
+RECURSIVE PointAll(_, _, _)
+PointAll(doc, ps, r) == IF ps = <<>> THEN doc ELSE PointAll(SetRefAt(doc, Head(ps), r), Tail(ps), r)
+StripOne(doc, defPath, parents) ==
+  IF parents = <<>> \/ ~Has(doc, defPath) \/ ~Has(doc, parents[1]) THEN doc
+  ELSE LET sch == At(doc, defPath)
+           d1  == SetAt(doc, parents[1], sch)
+           d2  == PointAll(d1, Tail(parents), <<"root">> \o parents[1])
+       IN DelAt(d2, defPath)
+
 \* ---- step 7: one pass of unused-definition removal ------------------------------------------------------
 Unused(doc)     == { n \in Defs(doc) : DefPos(n) \notin Targeted(doc) }
 RemovePass(doc) ==
